@@ -1,4 +1,4 @@
-\* M+G (quick, 1 case in 2 of the exhaustive enumeration - residue class chosen by the seed, variable-length members): packed structures of <= 2 members over B, I, i, s and their terminated / counted / bound / LEB128 forms, bitfield units and typedefs; zero and pattern values
+\* M+G (thorough, exhaustive, variable-length members): packed structures of <= 2 members over B, I, i, s and their terminated / counted / bound / LEB128 forms, bitfield units and typedefs; zero and pattern values
 CONSTANTS
   RawT = {"B", "I", "i", "s"}
   ArrN = {2}
@@ -14,7 +14,7 @@ CONSTANTS
   BitSplits <- BitSplitsSmall
   PS = {32}
   VCs = {"zero", "pat", "neg"}
-  Stride = 2
+  Stride = 1
   Dev = {}
   Mode = "gen"
 INIT Init
